@@ -39,7 +39,7 @@ func init() {
 	fw.Register(&fw.Prop{
 		ID:    "C04",
 		Level: "fault_enumeration",
-		Rule: "cases = (scripted valid stream: multi-message, multi-fragment, control frames interleaved, uncompressed and compressed with both takeover settings) x role x transport termination (EOF / io.ErrUnexpectedEOF / custom error / reset) x reader (Read, Reader with buffer 1/3/64/4096, NetConn.Read, wsjson.Read on JSON whose fragment prefixes are valid JSON); " +
+		Rule: "cases = (scripted valid stream: multi-message, multi-fragment, control frames interleaved, uncompressed and compressed with both takeover settings) x role x transport termination (EOF / io.ErrUnexpectedEOF / custom error / reset, and error or EOF reported by the same transport Read that delivers the last bytes) x reader (Read, Reader with buffer 1/3/64/4096, NetConn.Read, wsjson.Read on JSON whose fragment prefixes are valid JSON, Read/Reader with a Write in between that fails because the peer is gone); plus complete messages whose last 4096-12288 bytes arrive in one transport read that also reports the failure; " +
 			"inside a case EVERY cut offset 0..len(stream) is executed on a fresh connection (long streams: every offset around each frame boundary plus a stride). The oracle is the streaming reference receiver run on stream[:k]. " +
 			"distinct key = (role, agreement, termination, reader, position class of the cut: frame boundary / inside header or control frame / between fragments / inside a data payload)",
 		Gen:         c04Gen,
